@@ -18,3 +18,8 @@ func TestS3(t *testing.T) {
 func TestWhiteBox(t *testing.T) {
 	hk.RunSub(t, hk.Sub[WPlan]{Name: "wb/cache-model", Quick: 3000, Thorough: 30000, Gen: GenW, Run: RunW, Journal: true})
 }
+
+// TestStress is the real-goroutine variant of the white-box check (cached reads concurrent with event application).
+func TestStress(t *testing.T) {
+	hk.RunSub(t, hk.Sub[SPlan]{Name: "s4/cache-stress", Quick: 150, Thorough: 1500, Gen: GenS, Run: RunS, Journal: true})
+}
